@@ -1,5 +1,6 @@
 import LJT.Proofs.ICC
 import LJT.Model.Header
+import LJT.Proofs.CopyOpt
 /-!
 # C16 - Header parameters and embedded metadata round-trip intact
 
@@ -79,6 +80,18 @@ theorem subsamp_of_factors :
   have : s = 0 ∨ s = 1 ∨ s = 2 ∨ s = 3 ∨ s = 4 ∨ s = 5 ∨ s = 6 := by
     simp [TJ_NUMSAMP] at hs; omega
   rcases this with rfl | rfl | rfl | rfl | rfl | rfl | rfl <;> first | (exact absurd rfl hg) | decide
+
+open LJT.CopyOpt in
+/-- **Copy options select exactly the documented subset, whatever the instance did
+before**: on a source object whose marker-save settings were accumulated by any history of
+earlier transforms, a transform with option `o` outputs exactly the source's COM/APPn
+markers that the option documents, in source order, minus a JFIF/Adobe marker the encoder
+already wrote itself. -/
+theorem copy_option_spec (hist : List Opt) (o : Opt) (wj wa : Bool) (src : List (Nat × List Nat))
+    (hsrc : ∀ m ∈ src, m.1 = CopyOpt.COM ∨ isAPPn m.1 = true) :
+    transform (savedAfter hist) o wj wa src =
+      src.filter (fun m => documented o m && !(wj && isJFIF m) && !(wa && isAdobe m)) :=
+  transform_spec _ o wj wa src hsrc
 
 -- non-vacuity: a 70000-byte profile needs two segments and meets the hypotheses
 example : 1 ≤ 70000 ∧ 70000 ≤ 255 * 65519 ∧ numMarkers 70000 = 2 := by decide
